@@ -245,4 +245,56 @@ def rules(facts):
     if seen_ops < 5:
         t5.missing_anchor(f"operator implementations of jaq_json::num::Num ({seen_ops} found)")
     out.append(t5.finish())
+
+    # ---------------- T9.6 zero is a non-negative position in both integer representations
+    t6 = Rule("T9.6", "the sign flag of a position (`PosUsize(non_negative, magnitude)`) counts zero as non-negative for machine integers and for big integers alike: "
+              "a `> 0` / `is_positive` test would turn a zero stored as a big integer into a from-the-end position", floor=2)
+
+    def includes_zero(e):
+        """True / False / None(not understood) for a boolean expression meant to say `the integer is >= 0`"""
+        e = strip(e)
+        k = e.get("k")
+        if k == "Binary":
+            lit0 = lambda x: strip(x).get("k") == "Lit" and strip(x)["lit"].get("int") == 0
+            op = e["op"]
+            if lit0(e["r"]):
+                return {">=": True, ">": False}.get(op)
+            if lit0(e["l"]):
+                return {"<=": True, "<": False}.get(op)
+            names = " ".join(str(n_["path"].get("def")) for n_ in find([e["l"], e["r"]], lambda n: n.get("k") == "Path"))
+            calls_ = " ".join(callees([e["l"], e["r"]]))
+            if "sign" in calls_:
+                if "Sign::Minus" in names:
+                    return {"!=": True, "==": None}.get(op)
+                if "Sign::Plus" in names:
+                    return {"==": False, "!=": None}.get(op)
+                if "Sign::NoSign" in names:
+                    return None
+        if k == "Unary" and e.get("op") == "!":
+            inner = strip(e["e"])
+            if inner.get("k") == "MethodCall" and inner["m"]["name"] == "is_negative":
+                return True
+            if inner.get("k") == "MethodCall" and inner["m"]["name"] == "is_positive":
+                return None
+        if k == "MethodCall":
+            if e["m"]["name"] == "is_positive":
+                return False
+            if e["m"]["name"] == "is_negative":
+                return None
+        if k == "Lit" and "bool" in e["lit"]:
+            return True
+        return None
+    for crate in ("jaq_json", "jaq_std"):
+        for f in facts.hir(crate):
+            if f.get("test"):
+                continue
+            for n in find(f["body"], lambda n: n.get("k") == "Call" and (strip(n["f"]).get("path") or {}).get("def") == "jaq_json::num::PosUsize" and n.get("args")):
+                a0 = strip(n["args"][0])
+                if a0.get("k") == "Path":
+                    continue  # a flag passed on
+                v = includes_zero(a0)
+                t6.examined((f["def"], n["sp"]), True, {"fn": f["def"], "zero_counts_as_non_negative": v})
+                if v is False:
+                    t6.violate(f"zero/{f['def']}", f"`{f['def']}` builds a position whose sign flag excludes zero (a `> 0` / `is_positive` test): zero in this representation becomes a from-the-end position, unlike the equal integer in the other representation", where=n["sp"])
+    out.append(t6.finish())
     return out
